@@ -1,7 +1,7 @@
 #!/bin/bash
 # usage: try_seed.sh <patch.diff> <ID> [<ID>...]   — apply a seeded change to /repo, run the checks, undo it.
 set -u
-P="$1"; shift
+P=$(readlink -f "$1"); shift
 cd /repo || exit 2
 git diff --quiet || { echo "/repo has local changes; refusing"; exit 2; }
 git apply "$P" || { echo "patch does not apply"; exit 2; }
